@@ -97,12 +97,16 @@ func (w *world) step(i int, st simcore.Step) bool {
 		r, ok := resp(res).(*clmodel.MsgCreateConcentratedPoolResponse)
 		if !ok {
 			run.Fail("C07", "response", "pool", "no pool creation response")
-			return false
+			if run.Enabled("C07") {
+				return false
+			}
 		}
 		pool, err := n.App.ConcentratedLiquidityKeeper.GetConcentratedPoolById(n.Ctx, r.PoolID)
 		if err != nil {
 			run.Fail("C07", "pool-missing", "pool", "created pool %d not found: %v", r.PoolID, err)
-			return false
+			if run.Enabled("C07") {
+				return false
+			}
 		}
 		w.pools = append(w.pools, &refPool{id: r.PoolID, d0: d0, d1: q, spacing: int64(sp), spread: sf, addr: pool.GetAddress(), spreadAdr: pool.GetSpreadRewardsAddress(), incAdr: pool.GetIncentivesAddress(), scaled: r.PoolID > w.threshold, dustPrec: rnew()})
 		return true
@@ -204,13 +208,17 @@ func (w *world) step(i int, st simcore.Step) bool {
 		r, _ := resp(res).(*cltypes.MsgAddToPositionResponse)
 		if r == nil {
 			run.Fail("C07", "response", "add", "no add-to-position response")
-			return false
+			if run.Enabled("C07") {
+				return false
+			}
 		}
 		// documented behaviour: the old position is withdrawn in full (rewards paid out) and a new one created
 		np, err := n.App.ConcentratedLiquidityKeeper.GetPosition(n.Ctx, r.PositionId)
 		if err != nil {
 			run.Fail("C07", "position-missing", "add", "position %d returned by add-to-position does not exist: %v", r.PositionId, err)
-			return false
+			if run.Enabled("C07") {
+				return false
+			}
 		}
 		pool := ps.pool
 		owner := ps.owner
@@ -223,7 +231,9 @@ func (w *world) step(i int, st simcore.Step) bool {
 		w.pos[np.PositionId] = &refPos{id: np.PositionId, owner: owner, pool: pool, lower: np.LowerTick, upper: np.UpperTick, liq: np.Liquidity, join: np.JoinTime, never: !w.inRange(pool, np.LowerTick, np.UpperTick), ent: map[string]*rat{}, tol: rnew(), tolUp: rnew()}
 		if np.LowerTick != ps.lower || np.UpperTick != ps.upper {
 			run.Fail("C07", "range-changed", "add", "add-to-position moved the range from [%d,%d) to [%d,%d)", ps.lower, ps.upper, np.LowerTick, np.UpperTick)
-			return false
+			if run.Enabled("C07") {
+				return false
+			}
 		}
 		run.Probe("add-to-position")
 		return true
@@ -250,7 +260,9 @@ func (w *world) step(i int, st simcore.Step) bool {
 		res := deliver(&cltypes.MsgWithdrawPosition{PositionId: ps.id, Sender: n.Accts[sender].String(), LiquidityAmount: liq})
 		if res.OK() && sender != ps.owner {
 			run.Fail("C07", "foreign-withdraw", "wd", "account %d withdrew position %d owned by %d", sender, ps.id, ps.owner)
-			return false
+			if run.Enabled("C07") {
+				return false
+			}
 		}
 		if !res.OK() {
 			return !run.Stop()
@@ -330,12 +342,16 @@ func (w *world) step(i int, st simcore.Step) bool {
 			got := n.AllBalances(n.Ctx, n.Accts[ps.owner]).Sub(before...)
 			if qerr != nil || !got.Equal(want) {
 				run.Fail("C08", "claim-equals-claimable", "spread", "position %d: claimable spread rewards %s (err %v) but the claim paid %s", ps.id, want, qerr, got)
-				return false
+				if run.Enabled("C08") {
+					return false
+				}
 			}
 			again, _ := n.App.ConcentratedLiquidityKeeper.GetClaimableSpreadRewards(n.Ctx, ps.id)
 			if !again.IsZero() {
 				run.Fail("C08", "claim-resets", "spread", "position %d still has %s claimable right after claiming", ps.id, again)
-				return false
+				if run.Enabled("C08") {
+					return false
+				}
 			}
 			ps.ent, ps.tol, ps.tolUp = map[string]*rat{}, rnew(), rnew()
 			ps.claims++
@@ -350,12 +366,16 @@ func (w *world) step(i int, st simcore.Step) bool {
 			got := n.AllBalances(n.Ctx, n.Accts[ps.owner]).Sub(before...)
 			if qerr != nil || !got.Equal(wantC) {
 				run.Fail("C08", "claim-equals-claimable", "incentives", "position %d: claimable incentives %s (forfeit %s, err %v) but the claim paid %s", ps.id, wantC, wantF, qerr, got)
-				return false
+				if run.Enabled("C08") {
+					return false
+				}
 			}
 			// uptime not reached => nothing paid while other liquidity is active
 			if ps.pool.hasGauge && n.Time.Sub(ps.join) < ps.pool.minUptime && !got.IsZero() && !liqNow.LT(osmomath.OneDec()) {
 				run.Fail("C08", "uptime-not-reached-paid", "incentives", "position %d is %s old, every incentive of the pool needs uptime >= %s, yet the claim paid %s", ps.id, n.Time.Sub(ps.join), ps.pool.minUptime, got)
-				return false
+				if run.Enabled("C08") {
+					return false
+				}
 			}
 			if !wantF.IsZero() {
 				run.Probe("incentives-forfeited")
@@ -386,7 +406,9 @@ func (w *world) step(i int, st simcore.Step) bool {
 		spreadAfter, _ := n.App.ConcentratedLiquidityKeeper.GetClaimableSpreadRewards(n.Ctx, ps.id)
 		if !spreadAfter.Equal(spreadBefore) {
 			run.Fail("C08", "transfer-keeps-rewards", "spread", "position %d had %s claimable before the transfer and %s after", ps.id, spreadBefore, spreadAfter)
-			return false
+			if run.Enabled("C08") {
+				return false
+			}
 		}
 		ps.owner = to
 		ps.clean = false
@@ -616,7 +638,9 @@ func (w *world) swap(i int, st simcore.Step, fk string, fa int64) bool {
 	}()
 	if d1 := n.Digest(ectx, "concentratedliquidity", "bank", "poolmanager"); d1 != d0 {
 		run.Fail("C03", "estimate-changes-state", "swap", "the swap estimate changed state (digest %s -> %s)", d0, d1)
-		return false
+		if run.Enabled("C03") {
+			return false
+		}
 	}
 
 	// incentives accrue with time to the liquidity that was active while the time passed; a swap happens at one
@@ -666,7 +690,9 @@ func (w *world) swap(i int, st simcore.Step, fk string, fa int64) bool {
 		c, f, err := n.App.ConcentratedLiquidityKeeper.GetClaimableIncentives(n.Ctx, q.id)
 		if err != nil || !c.Equal(b.c) || !f.Equal(b.f) {
 			run.Fail("C08", "swap-changes-claimable-incentives", "swap", "position %d [%d,%d) could claim incentives %s (+%s forfeitable) before the swap and %s (+%s) right after it, in the same block (err %v); tick before %d", q.id, q.lower, q.upper, b.c, b.f, c, f, err, tickBefore)
-			return false
+			if run.Enabled("C08") {
+				return false
+			}
 		}
 	}
 	if len(incBefore) > 0 {
@@ -680,13 +706,17 @@ func (w *world) swap(i int, st simcore.Step, fk string, fa int64) bool {
 	}
 	if estErr != nil || !est.Equal(calc) {
 		run.Fail("C03", "estimate-equals-execution", "swap", "estimate %v (err %v) but execution gave %s (exactIn=%v zeroForOne=%v amount %s)", est, estErr, calc, exactIn, zeroForOne, amt)
-		return false
+		if run.Enabled("C03") {
+			return false
+		}
 	}
 
 	// curve bound
 	if !ideal.feasible {
 		run.Fail("C03", "executed-beyond-curve", "swap", "the swap executed although the reference curve runs out of initialised ticks before filling %s", amt)
-		return false
+		if run.Enabled("C03") {
+			return false
+		}
 	}
 	buckets := int64(len(ideal.steps))
 	p.crossed += int64(ideal.crossed)
@@ -746,11 +776,15 @@ func (w *world) swap(i int, st simcore.Step, fk string, fa int64) bool {
 	gotOutR, paidInR := rfromInt(gotOut.BigInt()), rfromInt(paidIn.BigInt())
 	if gotOutR.Cmp(radd(ideal.out, epsOf(ideal.out))) > 0 {
 		run.Fail("C03", "paid-out-more-than-curve", "swap", "pool paid out %s, the exact curve prescribes %s (zeroForOne=%v exactIn=%v amount %s)", gotOut, ideal.out.FloatString(6), zeroForOne, exactIn, amt)
-		return false
+		if run.Enabled("C03") {
+			return false
+		}
 	}
 	if radd(paidInR, epsOf(ideal.in)).Cmp(ideal.in) < 0 {
 		run.Fail("C03", "charged-less-than-curve", "swap", "pool charged %s, the exact curve prescribes %s (zeroForOne=%v exactIn=%v amount %s)", paidIn, ideal.in.FloatString(6), zeroForOne, exactIn, amt)
-		return false
+		if run.Enabled("C03") {
+			return false
+		}
 	}
 	slack := rsub(ideal.out, gotOutR)
 	if d := rsub(paidInR, ideal.in); d.Cmp(slack) > 0 {
@@ -769,7 +803,9 @@ func (w *world) swap(i int, st simcore.Step, fk string, fa int64) bool {
 		}
 		tb, sb, lb := tickBefore, ideal.endSqrt, ideal.maxLiq
 		run.Fail("C03", "rounding-exceeds-bound", "swap", "execution differs from the exact curve by %s units (in %s vs %s, out %s vs %s), bound %s for %d buckets; tick before %d ideal end sqrt %s maxL %s steps:%s", slack.FloatString(3), paidIn, ideal.in.FloatString(3), gotOut, ideal.out.FloatString(3), B.FloatString(1), buckets, tb, sb.FloatString(12), lb.FloatString(3), dbg)
-		return false
+		if run.Enabled("C03") {
+			return false
+		}
 	}
 	ratio, _ := rquo(slack, B).Float64()
 	run.Max("max/c03-rounding-used-permille", int64(ratio*1000))
@@ -781,7 +817,9 @@ func (w *world) swap(i int, st simcore.Step, fk string, fa int64) bool {
 	feeRel = radd(feeRel, B) // the charge follows the input, which itself is only within B of the curve
 	if d := rsub(rfromInt(feePaid.BigInt()), ideal.fee); d.Cmp(rsub(rint(-1-buckets), feeRel)) < 0 || d.Cmp(radd(rint(2+buckets), feeRel)) > 0 {
 		run.Fail("C08", "spread-charge-not-deposited", "swap", "the curve charges %s spread, the spread-reward account received %s", ideal.fee.FloatString(3), feePaid)
-		return false
+		if run.Enabled("C08") {
+			return false
+		}
 	}
 
 	// ---- reference bookkeeping: which positions the price visited, spread ledger ----
@@ -854,7 +892,9 @@ func (w *world) swap(i int, st simcore.Step, fk string, fa int64) bool {
 			run.Probe("round-trip-probe")
 			if returned.GT(paidIn) {
 				run.Fail("C03", "round-trip-profit", "swap", "swapped %s%s for %s%s and straight back for %s%s", paidIn, inDenom, gotOut, outDenom, returned, inDenom)
-				return false
+				if run.Enabled("C03") {
+					return false
+				}
 			}
 		}
 	}
